@@ -31,6 +31,17 @@ def run(ctx):
     if f.violated:
         raise core.ToolFailure("design-level invariant %s of WinFpo.tla is violated in the model" % f.violated)
     repf = ctx.read_harness_report(ctx.harness("replay_win", ["fpo", f.out_path], out_name="replay_fpo.out"))
+    # ---- parser layer: overlapping / duplicate STACK WIN records (RangeMap.tla, WinTable): for C07 the table the
+    #      parser builds must be exactly the documented one (first of identical records wins, a record starting
+    #      inside the previous one truncates it), so any difference from the model is a violation here
+    rm = ctx.tlc("RangeMap", "MC_RangeMap_quick", coverage=False, timeout=3000, out_name="rm_for_win")
+    pend = ctx.work / "win_pending.ndjson"
+    repw = ctx.read_harness_report(ctx.harness("replay_rangemap", [rm.out_path, 9, pend, "win_fd,win_fpo"], out_name="replay_winrec.out"))
+    with open(pend) as fh:
+        for line in fh:
+            r = json.loads(line)
+            r.pop("probes", None)
+            ctx.mismatch("win-record-table:" + r["bind"], r)
     classes = {}
     for rp in reps:
         for k, v in rp["classes"].items():
@@ -41,7 +52,7 @@ def run(ctx):
     for need in ("fpo_ok_bp", "fpo_ok_passthrough", "fpo_ok_leftover_skip", "fpo_fails"):
         if repf["classes"].get(need, 0) == 0:
             raise core.ToolFailure("vacuous replay: class %s never exercised" % need)
-    evals = sum(r["evaluations"] for r in reps) + repf["evaluations"]
+    evals = sum(r["evaluations"] for r in reps) + repf["evaluations"] + repw["evaluations"]
     cov = {
         "states": sum(r.distinct for _, r in runs) + f.distinct,
         "transitions": sum(r.generated for _, r in runs) + f.generated,
@@ -54,7 +65,7 @@ def run(ctx):
                 "distinct (instance, program) with a defined result); every FPO configuration of the size grid x alloc-base-pointer x "
                 "ebp/ebx known x leftover-return-address (non-trivial = configuration that unwinds successfully)",
         "tlc": dict([(c, r.as_dict()) for c, r in runs] + [("WinFpo", f.as_dict())]),
-        "replay_classes": {"eval": classes, "fpo": repf["classes"]},
+        "replay_classes": {"eval": classes, "fpo": repf["classes"], "win_record_tables": repw["classes"]},
         "words_selftest_vectors": nvec,
     }
     return ctx.finish("model_checking", cov, assumptions=[
